@@ -83,7 +83,7 @@ def gen_hrs(rng, small=True, odd_ok=False, with_opts=True):
             r = rng.choice((1, 2, 3, 5))
         if odd_ok and rng.random() < 0.35:
             w = max(1, w - 1)
-        s = rng.choice((0, 0, 1, 7, rng.randint(0, 64)))
+        s = rng.choice((0, 0, 1, 7, 16, rng.randint(0, 64)))
         opts = ["-w", str(w), "-r", str(r)]
         if s or rng.random() < 0.2:
             opts += ["-s", str(s)]
@@ -161,6 +161,9 @@ def gen_art(rng, small=True, with_opts=True):
     mode = rng.choice(MAX_MODES)
     cb = rng.choice((1, 2, 3, 6)) if small else rng.randint(1, 40)
     rows = rng.choice((1, 2, 5, 25)) if small else rng.randint(1, 255)
+    if rng.random() < 0.1:
+        # header bytes at the byte/sign boundaries: very wide or very tall art
+        cb, rows = rng.choice(((127, 2), (128, 1), (255, 1), (1, 255), (2, 128), (33, 193)))
     s = rng.choice((0, 0, 3, rng.randint(0, 20))) if with_opts else 0
     opts = ([mode] if mode else []) + ["-newsroom"]
     if s:
@@ -194,7 +197,7 @@ def gen_pix(rng, small=True):
 
 # ------------------------------------------------------------------------------ MGE
 def mge_header(rng, raw, rgb):
-    pal = _palette(rng) if rgb else bytes(rng.randint(0, 24) for _ in range(16))
+    pal = _palette(rng) if rgb else bytes(rng.randint(0, 63) for _ in range(16))
     tl = rng.randint(0, 29)
     title = bytes(rng.choice(b"ABCDEFGHIJ klmnop0123") for _ in range(tl))
     title = title + b"\0" + bytes(rng.getrandbits(8) for _ in range(29 - tl))
@@ -272,8 +275,11 @@ def rat_stream(rng, pix, esc):
 def gen_rat(rng, small=True):
     esc = rng.getrandbits(8)
     pix = _pixels(rng, 199 * 160, rng.choice(("runs", "flat", "mixed", "mixed")))
+    if rng.random() < 0.2:
+        # an escape byte that is also a frequent pixel value, or 0x00 / 0xFF
+        esc = rng.choice((0, 0xFF, pix[0], pix[len(pix) // 2], pix[-1]))
     body, ctrl = rat_stream(rng, pix, esc)
-    hdr = bytes([esc, rng.randint(1, 255), rng.getrandbits(8)]) + _palette(rng)
+    hdr = bytes([esc, rng.choice((1, 255, esc or 1, rng.randint(1, 255))), rng.getrandbits(8)]) + _palette(rng)
     smap = [(0, "flag"), (1, "flag"), (2, "flag")] + [(3 + i, "pal") for i in range(16)]
     smap += [(19 + c, "ctrl") for c in ctrl] + [(19 + c + 1, "ctrl") for c in ctrl]
     data = hdr + body
